@@ -5,12 +5,16 @@ Regenerates lean/EdzedModel/Gen/TranslatedFilterObjs.lean from the CURRENT sourc
 
     Edge.__init__             -> edgeInit          (what the constructor stores: the model's EdgeFlags)
                                  edgeInitDefaults  (the defaults of its signature: the model's EdgeArgs)
+    Delta.__init__            -> deltaInit         (`_delta`, `_last` of the new object)
     Delta.__call__            -> deltaCall         (new `_last` and the result)
     IfOutput.__call__         -> ifOutputCall
     IfNotIitialized.__call__  -> ifNotInitCall
     SBlock.is_initialized     -> isInitialized
     DataEdit.__call__         -> dataEditCall      (+ dataEditCall_for1: the `for func in self._editlist` loop
                                                      as structural recursion over the list)
+
+    DataEdit.__init__, the 8 operation methods -> dataEditOpSignatures (each verified to append exactly one edit
+                                 function and return self; the parameters in order)
 
 (`Edge.__call__`, `not_from_undef` and the eight edit functions of `DataEdit` are translated by py2lean.py
 itself, the filter loop of `Event.send` by py2lean_dispatch.py.)
@@ -19,8 +23,9 @@ The scheme is continuation passing over the statement list, so that statement OR
 short-circuit evaluation, early returns, `break`/`continue` and the places where an exception can arise all
 come from the AST:
 
-  statements   docstring; `assert isinstance(<declared attribute>, …)` and logging (ignored, also an `if`
-               whose body only logs and whose test calls nothing); `x = data['lit']` (KeyError when missing);
+  statements   docstring; `assert isinstance(<declared attribute>, <declared class>)` without a computed message and
+               logging calls whose arguments are harmless (constants, names, attributes, `type(x)`: they are
+               evaluated eagerly) are ignored, also an `if` whose body only logs and whose test calls nothing; `x = data['lit']` (KeyError when missing);
                `x = func(data)` with the loop variable of the edit list (an exception of the call propagates);
                `x = <pure expression>`; `self._attr = <pure expression>` for a declared attribute (later reads
                see the new value; for `Delta` the attribute at the moment of the return/raise is part of the
@@ -42,6 +47,7 @@ OMITTED with an `UNTRANSLATABLE` comment, so that exactly the `translated_filter
 EdzedProps/C16.lean that mention it stop compiling.
 """
 import ast
+import json
 import os
 
 LEAN_T = {'bool': 'Bool', 'optbool': 'Option Bool', 'val': 'Val', 'rat': 'Rat', 'data': 'Data', 'pyres': 'FRes'}
@@ -72,6 +78,16 @@ class TrObj:
                         env_some[p] = (inner, 'bool')
                         return env[p][0], inner, env_some, isinstance(test.ops[0], ast.Is)
                 return super().narrowing(test, env)
+
+            def compare(self, left, op, right, env):
+                # `x is None` / `x is not None` on an arbitrary Python value (identity with the singleton);
+                # deliberately a different term from the truth value `(x).truthy` and from `x == None`
+                if (isinstance(op, (ast.Is, ast.IsNot)) and isinstance(right, ast.Constant)
+                        and right.value is None):
+                    t, ty = self.expr(left, env)
+                    if ty == 'val':
+                        return f'(!({t} == Val.none))' if isinstance(op, ast.IsNot) else f'({t} == Val.none)'
+                return super().compare(left, op, right, env)
         self.tr = TrV(target)
 
     # ---- helpers ------------------------------------------------------------------
@@ -100,10 +116,28 @@ class TrObj:
     def calls_nothing(node):
         return not any(isinstance(n, (ast.Call, ast.NamedExpr, ast.Await, ast.Yield)) for n in ast.walk(node))
 
+    @classmethod
+    def harmless(cls, node):
+        """an expression whose evaluation can neither fail nor do anything: constants, names, attribute chains,
+        `type(x)`; NOT `%`-formatting, f-strings, calls, subscripts (an eagerly evaluated log argument)"""
+        if isinstance(node, ast.Constant) or isinstance(node, ast.Name):
+            return True
+        if isinstance(node, ast.Attribute):
+            return cls.harmless(node.value)
+        if (isinstance(node, ast.Call) and isinstance(node.func, ast.Name) and node.func.id == 'type'
+                and len(node.args) == 1 and not node.keywords):
+            return cls.harmless(node.args[0])
+        return False
+
     def is_logging(self, s):
+        """a call of a logging method that is ignored: its arguments are evaluated eagerly, so they must be harmless"""
         if isinstance(s, ast.Expr) and isinstance(s.value, ast.Call):
             p = self.path(s.value.func)
-            return p is not None and p.split('.')[0] in ('_logger', 'logging')
+            if p is not None and p.split('.')[0] in ('_logger', 'logging'):
+                c = s.value
+                if all(self.harmless(a) for a in c.args) and all(self.harmless(k.value) for k in c.keywords):
+                    return True
+                raise self.U('logging call with an eagerly evaluated argument: ' + ast.unparse(c)[:80])
         return False
 
     # ---- numeric expressions over Python values (may raise TypeError) ------------------
@@ -206,10 +240,15 @@ class TrObj:
             return go(env, ind)
         if isinstance(s, ast.Assert):
             tst = s.test
+            # only the declared sanity check `assert isinstance(<attribute>, <class>)` is ignored; another class
+            # (a narrower one rejects control blocks that are accepted today) or a message expression is not
+            want = self.t.get('asserted', {})
             if (isinstance(tst, ast.Call) and isinstance(tst.func, ast.Name) and tst.func.id == 'isinstance'
-                    and len(tst.args) == 2 and self.path(tst.args[0]) in self.t.get('asserted', ())):
+                    and len(tst.args) == 2 and not tst.keywords and self.path(tst.args[0]) in want
+                    and ast.unparse(tst.args[1]) == want[self.path(tst.args[0])]
+                    and (s.msg is None or isinstance(s.msg, ast.Constant))):
                 return go(env, ind)
-            raise self.U('assert ' + ast.unparse(tst))
+            raise self.U('assert ' + ast.unparse(s)[7:])
         if (isinstance(s, ast.If) and not s.orelse and all(self.is_logging(x) for x in s.body)
                 and self.calls_nothing(s.test)):
             return go(env, ind)
@@ -329,13 +368,22 @@ def targets(h):
         f = {k: e[a][0] for k, a in (('rise', 'self._rise'), ('fall', 'self._fall'), ('urise', 'self._urise'),
                                       ('ufall', 'self._ufall'))}
         return '  ' * i + '{ ' + ', '.join(f'{k} := {v}' for k, v in f.items()) + ' }'
-    B = 'bool'
+    B, V = 'bool', 'val'
+
+    def delta_final(e, i):
+        return '  ' * i + f"({e['self._delta'][0]}, {e['self._last'][0]})"
     return [
+        # the arguments are arbitrary Python objects (`Edge(rise=1)`): `bool(x)` is `(x).truthy`, a bare `x` is not
+        # a Bool and cannot be stored in a flag, `x is None` is not `not x`
         dict(name='edgeInit', doc='filters.Edge.__init__', node=lambda: h.fn_ast(filters.Edge.__init__),
-             params=[('rise', 'Bool'), ('fall', 'Bool'), ('u_rise', 'Option Bool'), ('u_fall', 'Bool')],
-             names={'rise': ('rise', B), 'fall': ('fall', B), 'u_rise': ('u_rise', 'optbool'), 'u_fall': ('u_fall', B)},
+             params=[('rise', 'Val'), ('fall', 'Val'), ('u_rise', 'Val'), ('u_fall', 'Val')],
+             names={'rise': ('rise', V), 'fall': ('fall', V), 'u_rise': ('u_rise', V), 'u_fall': ('u_fall', V)},
              attrs={'self._rise': B, 'self._fall': B, 'self._urise': B, 'self._ufall': B},
              out='EdgeFlags', fall=edge_final, header=': the attributes the constructor stores'),
+        dict(name='deltaInit', doc='filters.Delta.__init__', node=lambda: h.fn_ast(filters.Delta.__init__),
+             params=[('delta', 'Rat')], names={'delta': ('delta', 'rat')},
+             attrs={'self._delta': 'rat', 'self._last': V}, out='Rat × Val', fall=delta_final,
+             header=': `(self._delta, self._last)` of the new object'),
         dict(name='deltaCall', doc='filters.Delta.__call__', node=lambda: h.fn_ast(filters.Delta.__call__),
              params=[('delta', 'Rat'), ('last', 'Val'), ('data', 'Data')],
              names={'self._delta': ('delta', 'rat'), 'self._last': ('last', 'val'), 'data': ('data', 'data')},
@@ -343,12 +391,12 @@ def targets(h):
              header=': `self._last` afterwards and the result'),
         dict(name='ifOutputCall', doc='filters.IfOutput.__call__ (`out`: the control block\'s output)',
              node=lambda: h.fn_ast(filters.IfOutput.__call__),
-             params=[('out', 'Val'), ('data', 'Data')], asserted=('self._ctrl_blk',),
+             params=[('out', 'Val'), ('data', 'Data')], asserted={'self._ctrl_blk': 'block.Block'},
              names={'self._ctrl_blk.output': ('out', 'val'), 'data': ('data', 'data')}, out='FRes'),
         dict(name='ifNotInitCall',
              doc='filters.IfNotIitialized.__call__ (`inited`: the control block\'s is_initialized())',
              node=lambda: h.fn_ast(filters.IfNotIitialized.__call__),
-             params=[('inited', 'Bool'), ('data', 'Data')], asserted=('self._ctrl_blk',),
+             params=[('inited', 'Bool'), ('data', 'Data')], asserted={'self._ctrl_blk': 'block.SBlock'},
              atoms={'self._ctrl_blk.is_initialized()': ('inited', 'bool')},
              names={'data': ('data', 'data')}, out='FRes'),
         dict(name='dataEditCall',
@@ -384,6 +432,91 @@ def edge_defaults(h):
     return 'def edgeInitDefaults : EdgeArgs :=\n  { ' + ', '.join(out) + ' }'
 
 
+def op_signatures(h):
+    """
+    The chainable operations of DataEdit (and its constructor): the edit functions themselves are translated by
+    py2lean.py (TrEdit) from the function each operation appends -- here the REST of the method is checked to be
+    nothing but: an optional inner `def` of that function, (add_output only) the two statements that resolve the
+    source block, exactly one unconditional `self._editlist.append(<that function or a lambda>)`, `return self`.
+    The parameters of the method in order are emitted, because the names captured by the edit function are bound
+    by them (swapping `src` and `dst` in a signature swaps their meaning without changing the edit function).
+    """
+    from edzed.blocklib import filters
+    D = filters.DataEdit
+    U = h.Untranslatable
+    plumbing = ['src = types.SimpleNamespace(block=source)', "simulator.get_circuit().resolve_name(src, 'block')"]
+
+    def params(fn):
+        a = fn.args
+        if a.posonlyargs or a.kwonlyargs or [x.arg for x in a.args][:1] != ['self']:
+            raise U('signature shape')
+        pos = a.args[1:]
+        dfl = [None] * (len(pos) - len(a.defaults)) + list(a.defaults)
+        out = [x.arg + ('' if d is None else '=' + ast.unparse(d)) for x, d in zip(pos, dfl)]
+        if a.vararg:
+            out.append('*' + a.vararg.arg)
+        if a.kwarg:
+            out.append('**' + a.kwarg.arg)
+        return out
+
+    def shape(fn, name):
+        body = [s for s in fn.body
+                if not (isinstance(s, ast.Expr) and isinstance(s.value, ast.Constant) and isinstance(s.value.value, str))]
+        inner, appended, state = None, 0, 'start'
+        for s in body:
+            if state == 'done':
+                raise U('statement after `return self`')
+            if isinstance(s, ast.FunctionDef) and inner is None and appended == 0:
+                inner = s.name
+            elif name == 'add_output' and appended == 0 and ast.unparse(s) in plumbing:
+                if ast.unparse(s) != plumbing[0 if state == 'start' else 1]:
+                    raise U('order of the source block resolution')
+                state = 'p1' if state == 'start' else 'p2'
+            elif (isinstance(s, ast.Expr) and isinstance(s.value, ast.Call) and not s.value.keywords
+                  and ast.unparse(s.value.func) == 'self._editlist.append' and len(s.value.args) == 1):
+                arg = s.value.args[0]
+                if appended or not (isinstance(arg, ast.Lambda) or (isinstance(arg, ast.Name) and arg.id == inner)):
+                    raise U('more than one / an unknown function appended')
+                if name == 'add_output' and state != 'p2':
+                    raise U('the source block is not resolved before the append')
+                appended += 1
+            elif isinstance(s, ast.Return) and isinstance(s.value, ast.Name) and s.value.id == 'self' and appended == 1:
+                state = 'done'
+            else:
+                raise U('statement ' + ast.unparse(s).split('\n')[0][:60])
+        if state != 'done':
+            raise U('no `return self` after the append')
+
+    rows, lost = [], []
+    try:
+        init = h.fn_ast(D.__init__)
+        body = [s for s in init.body
+                if not (isinstance(s, ast.Expr) and isinstance(s.value, ast.Constant))]
+        if not (len(body) == 1 and isinstance(body[0], (ast.Assign, ast.AnnAssign))
+                and ast.unparse(body[0].targets[0] if isinstance(body[0], ast.Assign) else body[0].target) == 'self._editlist'
+                and isinstance(body[0].value, ast.List) and not body[0].value.elts):
+            raise U('body is not `self._editlist = []`')
+        rows.append(('__init__', params(init)))
+    except Exception as err:
+        lost.append(('__init__', err))
+    for name in sorted(n for n, v in vars(D).items() if not n.startswith('_') and isinstance(v, filters._dualmethod)):
+        try:
+            fn = h.fn_ast(vars(D)[name].__wrapped__)
+            shape(fn, name)
+            rows.append((name, params(fn)))
+        except Exception as err:
+            lost.append((name, err))
+    L = ['/-- `DataEdit.__init__` (creates the empty `_editlist`) and the chainable operations of DataEdit: each is',
+         '    verified to append exactly ONE edit function (the one translated as `Gen.TrF.edit…`) to `_editlist`,',
+         '    unconditionally, and to return `self`; listed with the parameters of the method in order -/',
+         'def dataEditOpSignatures : List (String × List String) :=',
+         '  [' + ',\n   '.join('(' + json.dumps(n) + ', [' + ', '.join(json.dumps(x) for x in ps) + '])' for n, ps in rows) + ']']
+    for n, err in lost:
+        L.insert(0, f"-- UNTRANSLATABLE `DataEdit.{n}`: left out of `dataEditOpSignatures` ({' '.join(str(err).split())[:160]})")
+        print(f'UNTRANSLATABLE dataEditOpSignatures[{n}] (filters.DataEdit.{n}): {err}')
+    return L
+
+
 def main_filters(outfile, h):
     L = ['/- GENERATED by tools/py2lean_filters.py (via tools/py2lean.py) from the Python source of edzed',
          '   (blocklib/filters.py: Edge.__init__, Delta, IfOutput, IfNotIitialized, DataEdit.__call__;',
@@ -416,6 +549,7 @@ def main_filters(outfile, h):
     h.emit(L, isinit, translate_value, '')
     for t in objs:
         h.emit(L, t, translate, t.get('header', ''))
+    L += op_signatures(h) + ['']
     L.append('end Edzed.Gen.TrFo')
     h.write_if_changed(outfile, '\n'.join(L) + '\n')
 
